@@ -111,12 +111,12 @@ CLAIMED = {
   technique="Lean 4 proof (bit-packing round trip + decide +kernel over the full header product + table equalities) + header-builder correspondence",
   ref="DESIGN.md §5 C05"),
  "C02": dict(
-  text='Free-standing ID3 files (MP3, TrueAudio: [ID3v2][audio][ID3v1]) are modelled too (Model/Container/Id3File.lean: ID3Header, find_id3v1, ID3.save, id3.delete) and tied byte for byte on synthesised layouts: id3_save_preserves_audio, id3_delete_preserves_audio. Lean 4 theorems (Props/C02.lean) for FLAC: FLAC._save as a FileM program (resize_bytes; seek; write) on the bytes of any well-formed layout, for every buffer size, padding choice and new block list, leaves a file that the strict format walker accepts and whose prefix, foreign blocks (in order, byte-identical) and audio are unchanged; delete likewise. Partial: the other 21 taggable formats are decided by independent container walkers on the real output over random edit histories (foreign pieces compared byte for byte and in order after every save/delete).',
+  text='IFF-style chunk files (AIFF, WAVE, DSDIFF: one dialect-parametrised model, Model/Container/Iff.lean) and APEv2-tagged files (Model/Container/ApeFile.lean) are modelled and tied the same way: iff_save_preserves_chunks, iff_delete_preserves_chunks, ape_save_preserves_audio, ape_delete_preserves_audio, ape_delete_keeps_id3v1. Free-standing ID3 files (MP3, TrueAudio: [ID3v2][audio][ID3v1]) are modelled too (Model/Container/Id3File.lean: ID3Header, find_id3v1, ID3.save, id3.delete) and tied byte for byte on synthesised layouts: id3_save_preserves_audio, id3_delete_preserves_audio. Lean 4 theorems (Props/C02.lean) for FLAC: FLAC._save as a FileM program (resize_bytes; seek; write) on the bytes of any well-formed layout, for every buffer size, padding choice and new block list, leaves a file that the strict format walker accepts and whose prefix, foreign blocks (in order, byte-identical) and audio are unchanged; delete likewise. Partial: the other 21 taggable formats are decided by independent container walkers on the real output over random edit histories (foreign pieces compared byte for byte and in order after every save/delete).',
   note='Trusted: Lean kernel; standard axioms; for FLAC the block-level model (a block is (code, payload as written by its write())) tied to the code by the walker oracle on real output; for the other formats the independent Python walkers in harness/walkers.py (written from the format specifications) are the oracle and nothing is proved yet.',
   technique='Lean 4 proof (refinement of FLAC._save to a layout-level model via the C11 region-replacement theorem) + independent walkers over edit histories',
   ref='DESIGN.md §5 C02'),
  "C03": dict(
-  text='For free-standing ID3 files: id3_save_header_consistent (the header a reader accepts, its syncsafe size field = frames + padding = the bytes before the audio). Lean 4 theorems (Props/C03.lean) for FLAC: walk(render L) = L for well-formed layouts; by induction over ANY finite history of saves (any comment payload, any padding choice) and deletes the file stays accepted by the strict walker (exactly the final block flagged last, sizes = extents) with unchanged foreign data; the bytes written equal the rendering of the model layout. Ogg page-level validity is Props/C15.lean. Partial: for the other formats structural rules (sizes=extents at every level, even alignment, CRCs/sequence numbers, APEv2 header/footer agreement, DSF size/pointer fields, syncsafe ID3 sizes) and reload + unchanged stream info are checked by the walkers after every step of random histories.',
+  text='IFF: iff_save_sizes_consistent, iff_delete_sizes_consistent, iff_save_keeps_wellformed (root size = extent, ID3 chunk size = data, pad byte iff odd, strict reader reads the layout back); APEv2: ape_save_wellformed. For free-standing ID3 files: id3_save_header_consistent (the header a reader accepts, its syncsafe size field = frames + padding = the bytes before the audio). Lean 4 theorems (Props/C03.lean) for FLAC: walk(render L) = L for well-formed layouts; by induction over ANY finite history of saves (any comment payload, any padding choice) and deletes the file stays accepted by the strict walker (exactly the final block flagged last, sizes = extents) with unchanged foreign data; the bytes written equal the rendering of the model layout. Ogg page-level validity is Props/C15.lean. Partial: for the other formats structural rules (sizes=extents at every level, even alignment, CRCs/sequence numbers, APEv2 header/footer agreement, DSF size/pointer fields, syncsafe ID3 sizes) and reload + unchanged stream info are checked by the walkers after every step of random histories.',
   note='Trusted: Lean kernel; standard axioms; for FLAC the block-level model (a block is (code, payload as written by its write())) tied to the code by the walker oracle on real output; for the other formats the independent Python walkers in harness/walkers.py (written from the format specifications) are the oracle and nothing is proved yet.',
   technique='Lean 4 proof (induction over edit histories of a layout-level model, parse/render round trip) + independent walkers',
   ref='DESIGN.md §5 C03'),
@@ -126,12 +126,12 @@ CLAIMED = {
   technique='Lean 4 proof (idempotence of the layout-level save with the generated padding policy) + resave differential on real files',
   ref='DESIGN.md §5 C07'),
  "C08": dict(
-  text='Lean 4 theorems (Props/C08.lean) for FLAC: after delete no Vorbis comment block and no padding payload remain, foreign data is untouched, delete is idempotent, and a later save yields a well-formed file. Partial: for the other formats delete by method and by module function is checked on the real code: tags gone on reload, in-memory tags cleared, no byte of a removed (marked) value, no padding, no tag header for free-standing ID3/APEv2, idempotent, re-taggable, also after an intermediate save of the empty tags.',
+  text='IFF: iff_delete_removes_chunk, iff_delete_untagged, iff_delete_then_wellformed, iff_delete_idempotent, iff_retag_after_delete; APEv2: ape_delete_leaves_audio, ape_delete_idempotent_and_retag. Lean 4 theorems (Props/C08.lean) for FLAC: after delete no Vorbis comment block and no padding payload remain, foreign data is untouched, delete is idempotent, and a later save yields a well-formed file. Partial: for the other formats delete by method and by module function is checked on the real code: tags gone on reload, in-memory tags cleared, no byte of a removed (marked) value, no padding, no tag header for free-standing ID3/APEv2, idempotent, re-taggable, also after an intermediate save of the empty tags.',
   note='Trusted: Lean kernel; standard axioms; for FLAC the block-level model (a block is (code, payload as written by its write())) tied to the code by the walker oracle on real output; for the other formats the independent Python walkers in harness/walkers.py (written from the format specifications) are the oracle and nothing is proved yet.',
   technique='Lean 4 proof (layout-level delete) + marked-value search on real files',
   ref='DESIGN.md §5 C08'),
  "C09": dict(
-  text="Lean 4 theorems (Props/C09.lean): the default padding policy (translated from PaddingInfo.get_default_padding on every run) is non-negative, keeps existing padding up to 10 KiB + 1 % (in particular up to 1 KiB), is idempotent, and no callback = callback returning the default; for FLAC the padding in the saved file equals min(callback(available − needed, audio size), 2^24−1) and answering with the offered padding leaves the file length unchanged. Partial: for the other formats the callback's arguments and effect are checked on the real code (padding measured by the walkers, file-size change = answer − offered padding, keep ⇒ in place, exactly one call).",
+  text="IFF: iff_padding_obeyed, iff_negative_padding_refused, iff_keep_is_inplace. Lean 4 theorems (Props/C09.lean): the default padding policy (translated from PaddingInfo.get_default_padding on every run) is non-negative, keeps existing padding up to 10 KiB + 1 % (in particular up to 1 KiB), is idempotent, and no callback = callback returning the default; for FLAC the padding in the saved file equals min(callback(available − needed, audio size), 2^24−1) and answering with the offered padding leaves the file length unchanged. Partial: for the other formats the callback's arguments and effect are checked on the real code (padding measured by the walkers, file-size change = answer − offered padding, keep ⇒ in place, exactly one call).",
   note='Trusted: Lean kernel; standard axioms; for FLAC the block-level model (a block is (code, payload as written by its write())) tied to the code by the walker oracle on real output; for the other formats the independent Python walkers in harness/walkers.py (written from the format specifications) are the oracle and nothing is proved yet.',
   technique='Lean 4 proof (arithmetic of the generated policy; FLAC layout-level save) + padding measurement on real files',
   ref='DESIGN.md §5 C09'),
